@@ -367,6 +367,11 @@ class Interp:
             r = self.domain.call(name, node, args, kwargs, self)
             if r is not NotImplemented:
                 return r
+            if isinstance(node.func, ast.Attribute) and node.func.attr == "append" and len(args) == 1 and not kwargs:
+                tgt = self.eval(node.func.value)
+                if isinstance(tgt, list):
+                    tgt.append(args[0])
+                    return None
             if name == "range" and all(isinstance(a, int) for a in args):
                 return range(*args)
             if name == "len" and len(args) == 1 and isinstance(args[0], (list, tuple, dict, range)):
@@ -375,6 +380,21 @@ class Interp:
                 return (min if name == "min" else max)(args)
             if name in ("int", "float", "bool", "abs") and len(args) == 1 and isinstance(args[0], CONCRETE):
                 return {"int": int, "float": float, "bool": bool, "abs": abs}[name](args[0])
+            return OPAQUE
+        if isinstance(node, ast.ListComp) and len(node.generators) == 1 and not node.generators[0].ifs:
+            g = node.generators[0]
+            it = self.eval(g.iter)
+            if isinstance(it, (list, tuple, range)):
+                saved = dict(self.env)
+                out = []
+                for v in it:
+                    self.tick()
+                    self.assign(g.target, v)
+                    out.append(self.eval(node.elt))
+                for k in [k for k in self.env if k not in saved]:
+                    del self.env[k]
+                self.env.update({k: v for k, v in saved.items()})
+                return out
             return OPAQUE
         if isinstance(node, (ast.JoinedStr, ast.Lambda, ast.ListComp, ast.DictComp, ast.GeneratorExp, ast.SetComp, ast.Dict, ast.Set)):
             return OPAQUE
